@@ -448,6 +448,30 @@ def zero_one_constant(ctx, ci: ClassInfo, init_term: Term) -> bool:
     return True
 
 
+def _rowsum_positive(ctx, ci: ClassInfo, den: Term) -> bool:
+    """den = row sums of a masker's 0/1 matrix C whose keep-alive column is all ones (ones at
+    both extreme rows of one extreme column): every row sum is >= 1."""
+    from ..anchor import E, S
+    repo = ctx.repo
+    c, mc = callee(den), method_call(den)
+    if c == 'torch.sum' and den[2]:
+        M = den[2][0]
+    elif mc and mc[1] == 'sum':
+        M = mc[0]
+    else:
+        return False
+    if not (M[0] == 'attr' and M[1][0] == 'attr' and M[1][1] == SELF):
+        return False
+    for k in attr_classes(repo, ci, M[1][2]):
+        if repo.find_getter(k, 'theta') is None:
+            continue
+        mi = analyse_masker(repo, k)
+        if mi.error or mi.c is None or mi.c_name != M[2]:
+            continue
+        return any(mi.c.at[(S, col)] is True and mi.c.at[(E, col)] is True for col in (S, E))
+    return False
+
+
 def norm_constants_positive(ctx, ci: ClassInfo, gen: FunctionInfo) -> bool:
     """Each constant is 1.0 / d with d = n - (something in [0, n-1]):
     beta: n - i with i in range(n);  gamma: gamma_len - k_i (see assumption)."""
@@ -468,6 +492,9 @@ def norm_constants_positive(ctx, ci: ClassInfo, gen: FunctionInfo) -> bool:
                 num, den = d[2], d[3]
                 if num not in (('const', 1.0), ('const', 1)):
                     return False
+                if _rowsum_positive(ctx, ci, den):
+                    good += 1
+                    continue
                 if den[0] != 'bin' or den[1] != '-':
                     return False
                 # n - i, i drawn from range(n)
